@@ -7,6 +7,11 @@ import vlib
 DOC_FORMS = {"number_of_spaces": [0, 1, 2, ">0", ">=0", ">=1", ">1", "0+", "1+", "<2", "<=1", "<=2"]}
 
 
+# attributes every rule has; the tests set e.g. fixable = True on rules documented as unfixable to exercise code that
+# users are told not to rely on - these are not option values of the rule
+BASE_ATTRS = ("indent_style", "indent_size", "phase", "disable", "fixable", "severity", "user_error_message")
+
+
 def from_tests(repo):
     out = {}  # (dir, NNN) -> list of dict attr->value
     for path in glob.glob(os.path.join(repo, "tests", "*", "test_rule_*.py")):
@@ -78,7 +83,7 @@ def load():
         if rid is None:
             continue
         for s in sets:
-            s2 = {a: v for a, v in s.items() if a in rt[rid]["configuration"]}
+            s2 = {a: v for a, v in s.items() if a in rt[rid]["configuration"] and a not in BASE_ATTRS}
             if s2:
                 per_rule.setdefault(rid, [])
                 if s2 not in per_rule[rid]:
@@ -91,7 +96,7 @@ def load():
         by_option.setdefault(a, [])
         if v not in by_option[a]:
             by_option[a].append(v)
-        if rid in rt and a in rt[rid]["configuration"]:
+        if rid in rt and a in rt[rid]["configuration"] and a not in BASE_ATTRS:
             per_rule.setdefault(rid, [])
             if {a: v} not in per_rule[rid]:
                 per_rule[rid].append({a: v})
